@@ -159,7 +159,7 @@ def check(pid, tier, seed, t0, finish):
                    "non-trivial = it contains a disconnect, two concurrent clients, or a stop followed by the completion check",
            "samples": res["samples"], "model_checking_runs": res["tlc"], "clause_hits": res["hits"], "trace_records": res["events"],
            "exhaustive": False}
-    assumptions = ["waits are bounded (%s s, VERIF_SOCK_BOUND): 'never completes' is observed as 'not within the bound'" % os.environ.get("VERIF_SOCK_BOUND", "3.0"),
+    assumptions = ["waits are bounded (%s s, VERIF_SOCK_BOUND): 'never completes' is observed as 'not within the bound'" % os.environ.get("VERIF_SOCK_BOUND", "5.0"),
                    "loopback TCP and Unix sockets of this host; CPython 3.12 asyncio.Server semantics"]
     return finish(pid, tier, seed, "model_checking", cov, assumptions, mine, {}, t0)
 
